@@ -42,8 +42,18 @@ def run(item):
         if sh("git -C %s apply %s" % (wt, patch)).returncode != 0:
             return sid, None
         det = {}
+        # one process, one load of the patched tree, every property (sections start with "== property Cnn")
+        allout = sh("%s VERIF_DIR=%s timeout 1800 %s -repo %s -all -nocontrols" % (ENV, ev, BIN, wt)).stdout
+        secs = {}
+        cur = None
+        for line in allout.splitlines():
+            m = re.match(r"^== property (\S+)", line)
+            if m:
+                cur = m.group(1); secs[cur] = []
+            elif cur:
+                secs[cur].append(line)
         for p in props:
-            o = sh("%s VERIF_DIR=%s timeout 900 %s -repo %s -property %s -nocontrols" % (ENV, ev, BIN, wt, p)).stdout
+            o = "\n".join(secs.get(p, []))
             if "VIOLATION" in o:
                 det[p] = sorted(set(re.findall(r"^\S+:\d+ (\S+) ", o, re.M)))
             elif "lovcheck property=" not in o:
